@@ -460,3 +460,11 @@ where
 	}
 	n
 }
+
+/// Get rid of a writer after a violation or a failed write: a normal drop (a leaked writer keeps up
+/// to 5 GiB of reserved address space alive in the worker, and later cases of the same worker then
+/// die of OOM under RLIMIT_AS), shielded because the final flush of a broken writer may panic in
+/// debug builds.
+pub fn discard<T>(w: T) {
+	let _ = std::panic::catch_unwind(std::panic::AssertUnwindSafe(move || drop(w)));
+}
